@@ -101,7 +101,7 @@ Lemma InvL_start s k r c w force :
   W s -> lookup (kmap s) k = Some r -> InvL (start_rec s r c w force).
 Proof.
   intros [HInv HL] Hk. unfold start_rec. set (x := getr s r).
-  destruct (negb force && rsucc x); [exact HL|].
+  destruct (negb force && rsucc x || rnil x); [exact HL|].
   destruct (negb force && is_some (rctx x) && negb (rexited x) && ctx_live s (rctx x)); [exact HL|].
   destruct HInv as [_ [HM _]]. destruct (HM k r Hk) as [M1 [M2 _]].
   set (s1 := stop_timer s (rretry x)).
@@ -145,7 +145,7 @@ Lemma Dead_start s k q c w force r n0 :
 Proof.
   intros HInv Hk HD. pose proof (registered_not_dead s k q r n0 HInv Hk HD) as Hne.
   unfold start_rec. set (x := getr s q).
-  destruct (negb force && rsucc x); [exact HD|].
+  destruct (negb force && rsucc x || rnil x); [exact HD|].
   destruct (negb force && is_some (rctx x) && negb (rexited x) && ctx_live s (rctx x)); [exact HD|].
   set (s2 := cancel_inst (stop_timer s (rretry x)) (rcancel x)).
   assert (D2 : Dead r n0 s2) by (apply Dead_cancel_inst, Dead_stop_timer, HD).
@@ -430,7 +430,7 @@ Proof.
   destruct (cancel_inst_frame s (rcancel x)) as [C1 [C2 _]]. fold s1 in C1, C2.
   assert (X1 : getr s1 r = x) by (unfold getr, x; now rewrite C2).
   assert (K1 : lookup (kmap s1) k = Some r) by (rewrite C1; exact Ek).
-  cbn [fx_reset repaired]. rewrite orb_true_r.
+  cbn [fx_reset fx_nilchain repaired]. rewrite w0_repaired.
   assert (Wc : chain_ok (insts s1) (rlin (getr s1 r)) (rexit x)).
   { destruct A1 as [_ [HM _]]. destruct (HM k r K1) as [_ [_ [_ [M4 _]]]]. rewrite X1 in M4. rewrite X1. exact M4. }
   destruct (Inv_new_same s1 k r (rexit x) A1 K1 Wc) as [A2 K2]. rewrite X1 in A2, K2.
@@ -648,6 +648,7 @@ Proof.
   - unfold advance. apply Good_ext; try reflexivity. exact H.
   - now apply Good_timer_cb.
   - now apply Good_cancel_root.
+  - apply Good_ext; try reflexivity. exact H.
 Qed.
 
 Lemma init_W dl sc : W (init dl sc).
@@ -678,7 +679,7 @@ Lemma reset_core_keeps_lineage s k cond r :
              rlin (getr (fst (reset_core repaired s k cond)) r') = rlin (getr s r).
 Proof.
   intros Hk Hc. unfold reset_core. rewrite Hk, Hc. cbn [negb].
-  set (x := getr s r). set (s1 := cancel_inst s (rcancel x)). cbn [fx_reset repaired]. rewrite orb_true_r.
+  set (x := getr s r). set (s1 := cancel_inst s (rcancel x)). cbn [fx_reset fx_nilchain repaired]. rewrite w0_repaired.
   pose proof (new_record_frame s1 k (rlin x) (rexit x)) as F.
   destruct (new_record s1 k (rlin x) (rexit x)) as [s2 r2] eqn:En. cbn [fst snd] in *.
   destruct F as [F0 [_ [_ [_ [_ [F5 [F6 [_ [_ [F9 _]]]]]]]]]].
@@ -853,38 +854,46 @@ Proof.
   unfold fire. rewrite Ha. destruct (N.leb_spec (tdead x) (clock s + d)); [|lia]. eexists. repeat split; reflexivity.
 Qed.
 
-Lemma start_rec_force_spawns s r c w : ninst (start_rec s r c w true) = S (ninst s).
+Lemma start_rec_force_spawns s r c w : rnil (getr s r) = false -> ninst (start_rec s r c w true) = S (ninst s).
 Proof.
-  unfold start_rec. cbn [negb andb]. unfold ninst. rewrite insts_setr. cbn [insts set_insts]. rewrite app_length. cbn [length].
+  intros Hn. unfold start_rec. rewrite Hn. cbn [negb andb orb]. unfold ninst. rewrite insts_setr. cbn [insts set_insts]. rewrite app_length. cbn [length].
   destruct (cancel_inst_frame (stop_timer s (rretry (getr s r))) (rcancel (getr s r))) as [_ [_ [_ [_ [_ [_ [_ [_ [_ [_ C]]]]]]]]]].
   destruct (stop_timer_frame s (rretry (getr s r))) as [_ [_ [T3 _]]]. rewrite C, T3. lia.
 Qed.
 
 Lemma retry_cb_restarts s t x :
   nth_error (timers s) t = Some x -> tst x = TFired -> tkind x = false ->
-  kctx s <> 0 -> in_map s (trec x) = true -> rexited (getr s (trec x)) = true ->
+  kctx s <> 0 -> in_map s (trec x) = true -> rexited (getr s (trec x)) = true -> rnil (getr s (trec x)) = false ->
   ninst (timer_cb repaired s t) = S (ninst s).
 Proof.
-  intros Hx Hf Hk Hc Hm He. unfold timer_cb. rewrite Hx, Hf, Hk.
+  intros Hx Hf Hk Hc Hm He Hn. unfold timer_cb. rewrite Hx, Hf, Hk.
   set (s1 := set_timers s _). change (has_ctx s1) with (has_ctx s). change (in_map s1 (trec x)) with (in_map s (trec x)).
   change (getr s1 (trec x)) with (getr s (trec x)). unfold has_ctx. destruct (Nat.eqb_spec (kctx s) 0); [contradiction|].
   rewrite Hm, He. cbn [negb andb]. now rewrite start_rec_force_spawns.
 Qed.
 
 (* ---- the pinned code ---- *)
-Definition pinned_d8 : fixes := {| fx_wait := false; fx_setkey := true; fx_sync := true; fx_reset := true; fx_stale := true |}.
+Definition pinned_d8 : fixes := {| fx_wait := false; fx_setkey := true; fx_sync := true; fx_reset := true; fx_stale := true; fx_nilchain := true |}.
 Definition d8_witness : list ev :=
   [ESetCtx 1 false; ESetKey 0 true; EProceed 0 true; ERestart 0 0; EProceed 1 false; ERestart 0 0; EWake 1 false; EProceed 2 true].
 Lemma d8_refuted : cnt (in_user_lin 0) (insts (run pinned_d8 (init 0 None) d8_witness)) = 2.
 Proof. vm_compute. reflexivity. Qed.
 
-Definition pinned_d8b : fixes := {| fx_wait := true; fx_setkey := true; fx_sync := true; fx_reset := false; fx_stale := true |}.
+Definition pinned_d8b : fixes := {| fx_wait := true; fx_setkey := true; fx_sync := true; fx_reset := false; fx_stale := true; fx_nilchain := true |}.
 Definition d8b_witness : list ev :=
   [ESetCtx 1 false; ESetKey 0 true; EProceed 0 true; ESetCtx 0 false; EReset 0 0; ESetCtx 2 false; EProceed 1 true].
 Lemma d8b_refuted : cnt (in_user_lin 0) (insts (run pinned_d8b (init 0 None) d8b_witness)) = 2.
 Proof. vm_compute. reflexivity. Qed.
 
-Definition pinned_d7 : fixes := {| fx_wait := true; fx_setkey := false; fx_sync := true; fx_reset := true; fx_stale := true |}.
+(* D22: ResetRoutine whose constructor returns no routine, with a context set, dropped the exit channel of the instance it
+   had just cancelled; the next ResetRoutine (constructor returns a routine) starts an instance that does not wait for it *)
+Definition pinned_d22 : fixes := {| fx_wait := true; fx_setkey := true; fx_sync := true; fx_reset := true; fx_stale := true; fx_nilchain := false |}.
+Definition d22_witness : list ev :=
+  [ESetCtx 1 false; ESetKey 0 true; EProceed 0 true; ESetNil 1; EReset 0 0; ESetNil 0; EReset 0 0; EProceed 1 true].
+Lemma d22_refuted : cnt (in_user_lin 0) (insts (run pinned_d22 (init 0 None) d22_witness)) = 2.
+Proof. vm_compute. reflexivity. Qed.
+
+Definition pinned_d7 : fixes := {| fx_wait := true; fx_setkey := false; fx_sync := true; fx_reset := true; fx_stale := true; fx_nilchain := true |}.
 Definition d7_witness : list ev :=
   [ESetCtx 1 false; ESetKey 0 true; EProceed 0 true; EReturn 0 (OErr 0); EBook 0; ESetKey 0 false; EAdvance 150].
 (* the retry timer was stopped: nothing fires, no instance follows, although the key is registered and the context set *)
@@ -968,7 +977,7 @@ Lemma NS_reset_routine s k cond : NS s (fst (reset_routine repaired s k cond)).
 Proof.
   unfold reset_routine. eapply NS_trans; [apply NS_norm_ctx|]. generalize (norm_ctx s). clear s. intros s. unfold reset_core.
   destruct (lookup (kmap s) k) as [r|]; [|apply NS_refl]. destruct (negb (cond_match cond k)); [apply NS_refl|].
-  set (s1 := cancel_inst s (rcancel (getr s r))). set (w0 := if has_ctx s1 || fx_reset repaired then _ else _).
+  set (s1 := cancel_inst s (rcancel (getr s r))). match goal with |- context [new_record s1 k _ ?w] => set (w0 := w) end.
   pose proof (NS_new_record s1 k (rlin (getr s r)) w0) as G. destruct (new_record s1 k (rlin (getr s r)) w0) as [s2 r2]. cbn [fst] in *.
   eapply NS_trans; [apply NS_cancel_inst|]. fold s1. eapply NS_trans; [exact G | apply NS_start_if'].
 Qed.
@@ -1057,4 +1066,5 @@ Proof.
   - reflexivity.
   - now apply NS_timer_cb.
   - unfold cancel_root. destruct (Nat.eqb c 0); [reflexivity|]. cbn [insts set_croots set_insts]. apply map_length.
+  - reflexivity.
 Qed.
